@@ -105,7 +105,7 @@ pub fn small_shapes(tier: Tier) -> Vec<(GameMode, DifficultyAttributes)> {
             }
         }
     }
-    let (mn, mh) = if tier == Tier::Thorough { (6, 3) } else { (4, 2) };
+    let (mn, mh) = if tier == Tier::Thorough { (7, 3) } else { (6, 2) };
     for n in 0..=mn {
         for h in 0..=mh.min(n) {
             v.push((GameMode::Mania, mania_shape(n, h)));
